@@ -38,7 +38,7 @@ PixVerdict(ev) ==
        \cup chk("half", ev.half) \cup chk("zero", ev.zero) \cup chk("assign", ev.assign)
 KernelVerdict(ev) ==
     LET n == Side(ev.v)
-        centre == IF ev.cx # n \div 2 \/ ev.cy # n \div 2 \/ n * n # ev.n THEN {V("X_KernelShape", "None", ev.name, [n |-> ev.n, cx |-> ev.cx, cy |-> ev.cy])} ELSE {}
+        centre == IF ev.cx # n \div 2 \/ ev.cy # n \div 2 \/ n # ev.n THEN {V("X_KernelShape", "None", ev.name, [n |-> ev.n, cx |-> ev.cx, cy |-> ev.cy])} ELSE {}
     IN centre \cup
        CASE ev.name = "sobel_dx" -> IF ev.v # SobelDx THEN {V("X_KernelValues", "None", ev.name, ev.v)} ELSE {}
          [] ev.name = "sobel_dy" -> IF ~P_DyOfDx(kern["sobel_dx"], ev.v) THEN {V("X_GradientPair", "None", "sobel", [dx |-> kern["sobel_dx"], dy |-> ev.v])} ELSE {}
